@@ -984,6 +984,44 @@ def r1d(ctx: RuleCtx) -> None:
     got_paths = {o[5:].split('.', 1)[1] for o in eo if o.startswith('attr:') and o.endswith('.value') and '.' in o[5:] and not o.startswith(f'attr:{root}')}
     uses_resolver = any(o in (f'call:{root}.{resolver}', f'call:{root}.get_value_for') for o in eo)
     ctx.note(f'option-object value paths the resolver may return: {sorted(res_paths)}; read by the projection: {sorted(got_paths)}')
+    # a value path the resolver takes only under a condition on the option object must be taken under that condition here as well
+    def guard_attrs(fnode: ast.AST, reader: ast.AST) -> T.Optional[T.Set[str]]:
+        """Attributes of the object `reader` is read from that are tested true on the way to `reader` (conjunctions only)."""
+        obj = reader
+        while isinstance(obj, ast.Attribute):
+            obj = obj.value
+        if not isinstance(obj, ast.Name):
+            return None
+        pm_ = parents(fnode)
+        out_: T.Set[str] = set()
+        cur_: ast.AST = reader
+        while cur_ in pm_:
+            par_ = pm_[cur_]
+            if isinstance(par_, (ast.If, ast.IfExp)):
+                body_ = par_.body if isinstance(par_.body, list) else [par_.body]
+                if any(cur_ is b_ for b_ in body_):
+                    t_ = par_.test
+                    for x_ in (t_.values if isinstance(t_, ast.BoolOp) and isinstance(t_.op, ast.And) else [t_]):
+                        if isinstance(x_, ast.Attribute) and isinstance(x_.value, ast.Name) and x_.value.id == obj.id:
+                            out_.add(x_.attr)
+                        elif isinstance(x_, ast.BoolOp) and any(isinstance(y_, ast.Name) and y_.id == obj.id for y_ in ast.walk(x_)):
+                            return None
+            cur_ = par_
+        return out_
+    for pth_ in sorted(res_paths) if cur else []:
+        if pth_ != 'value' and pth_ in got_paths:
+            r_readers = [a_ for a_ in ast.walk(rfn) if isinstance(a_, ast.Attribute) and isinstance(a_.ctx, ast.Load) and (attr_chain(a_) or '').split('.', 1)[-1] == pth_]
+            p_readers = [a_ for a_ in ast.walk(ef) if isinstance(a_, ast.Attribute) and isinstance(a_.ctx, ast.Load) and (attr_chain(a_) or '').split('.', 1)[-1] == pth_]
+            if len(r_readers) == 1 and p_readers:
+                need_g = guard_attrs(rfn, r_readers[0])
+                for pr_ in p_readers:
+                    have_g = guard_attrs(ef, pr_)
+                    if need_g is None or have_g is None:
+                        raise Undecided(f'{pq}: guard of `.{pth_}` not understood')
+                    miss_g = sorted(need_g - have_g)
+                    ctx.require(not miss_g, f'{pq}: `.{pth_}` is emitted under the resolver\'s condition {sorted(need_g)}', mod, pq, f'guard of .{pth_}: missing {miss_g}',
+                                f'OptionStore.{resolver} returns the option object\'s `.{pth_}` only when its {" and ".join("." + g_ for g_ in sorted(need_g))} holds; {pq} emits `.{pth_}` '
+                                f'without testing {", ".join("." + g_ for g_ in miss_g)} (guard seen: {sorted(have_g)}), so it reports a value get_option() did not return', pr_)
     for pth_ in sorted(res_paths) if cur else []:
         judge(ctx, uses_resolver or pth_ in got_paths, f'{pq}: emitted "value" can be the option object\'s `.{pth_}` like the resolver\'s result', cur and not handed, mod, pq,
               f'value path .{pth_}', f'get_option() resolves through OptionStore.{resolver}, which may return the option object\'s `.{pth_}` '
@@ -1232,7 +1270,7 @@ def r2a(ctx: RuleCtx) -> None:
                 raise Undecided(f'{fn.name}: result is not <projection>(serialisation): {short(r)}')
     if len(projs) != 1:
         raise Undecided(f'tests and benchmarks use different projections: {sorted(projs)}')
-    pf = mod.func(next(iter(projs)))
+    pf = normal_func(mod, next(iter(projs)))
     pq = pf.name
     p0 = param(pf, 0, pq)
     loops = [l for l in pf.body if isinstance(l, ast.For) and isinstance(l.target, ast.Name) and norm(l.iter) == p0]
@@ -1253,7 +1291,14 @@ def r2a(ctx: RuleCtx) -> None:
         if isinstance(tg, ast.Name) and isinstance(getattr(st, 'value', None), (ast.Dict, ast.DictComp)) or \
                 (isinstance(tg, ast.Name) and isinstance(getattr(st, 'value', None), ast.Call) and call_method(st.value) == 'dict'):
             dvars.add(tg.id)
+    ploc2 = Locals(pf)
+
     def is_entry(e: ast.AST) -> bool:
+        if isinstance(e, ast.Name) and e.id not in dvars:
+            try:
+                e = ploc2.resolve(e)
+            except Undecided:
+                return False
         return norm(e) in dvars or isinstance(e, ast.Dict)
     app: T.List[ast.AST] = [c for c in method_calls(loops[0], 'append') if c.args and is_entry(c.args[0])]
     app += [c for c in method_calls(loops[0], 'extend') if len(c.args) == 1 and isinstance(c.args[0], (ast.List, ast.Tuple)) and len(c.args[0].elts) == 1 and is_entry(c.args[0].elts[0])]
@@ -1346,6 +1391,10 @@ def r2b(ctx: RuleCtx) -> None:
         m = normal_func(imod, f'Installer.{name}')
         for l in walk_no_nested(m):
             if isinstance(l, ast.For) and isinstance(l.iter, ast.Attribute) and l.iter.attr in lists and isinstance(l.target, ast.Name) and '__i' not in l.target.id:
+                acts = [c for st_ in l.body for c in ast.walk(st_) if isinstance(c, ast.Call) and isinstance(c.func, ast.Attribute)
+                        and (attr_chain(c.func.value) or '').split('.')[0] in ({'self'} | set(params(m))) and c.func.attr != 'log']
+                if not acts:
+                    continue      # a loop that only inspects / collects the entries (no method of the installer or of a parameter is called): not an installer loop
                 n_inst += 1
                 asks = [c for c in method_calls(l, 'should_install', nested=False) if recv(c) == 'self' and l.target.id in [norm(a) for a in list(c.args) + [k.value for k in c.keywords]]]
                 handed = [c for c in walk_no_nested(l) if isinstance(c, ast.Call) and recv(c) == 'self' and call_method(c) != 'should_install'
@@ -2017,29 +2066,59 @@ def r1g(ctx: RuleCtx) -> None:
 TEST_SOURCES = {'exe': ('exe', 'get_exe'), 'cmd_args': ('cmd_args',), 'depends': ('depends',)}
 
 
-def _classes_accepted(pm: T.Dict[ast.AST, ast.AST], node: ast.AST, var: str, stop: ast.AST) -> T.Optional[T.FrozenSet[str]]:
-    """Target classes of `var` under which `node` executes: union of the isinstance class lists that guard it positively;
-    frozenset({'*'}) when no isinstance test on var restricts it (or it sits in the else of such tests); None when not understood."""
+def _isinstance_on(t: ast.AST, var: str) -> T.Optional[T.Set[str]]:
+    if isinstance(t, ast.Call) and isinstance(t.func, ast.Name) and t.func.id == 'isinstance' and len(t.args) == 2 \
+            and isinstance(t.args[0], ast.Name) and t.args[0].id == var:
+        names = {(attr_chain(x) or '?').split('.')[-1] for x in (t.args[1].elts if isinstance(t.args[1], ast.Tuple) else [t.args[1]])}
+        return None if '?' in names else names
+    return None
+
+
+def _classes_accepted(pm: T.Dict[ast.AST, ast.AST], node: ast.AST, var: str, stop: ast.AST, loc: T.Optional[Locals] = None) -> T.Optional[T.FrozenSet[str]]:
+    """Target classes of `var` under which `node` executes: intersection of the isinstance class lists that guard it positively;
+    frozenset({'*'}) when no condition on var restricts it (or it sits in the negative branch of such tests); None when a guard that
+    mentions the variable (directly or through a named condition) is not understood."""
     acc: T.Optional[T.Set[str]] = None
     cur: ast.AST = node
     while cur in pm and cur is not stop:
         par = pm[cur]
-        if isinstance(par, ast.If) and (cur in par.body or cur in par.orelse):
+        if isinstance(par, (ast.If, ast.IfExp, ast.While)) and (cur in getattr(par, 'body', []) or cur in getattr(par, 'orelse', []) or cur is getattr(par, 'body', None) or cur is getattr(par, 'orelse', None)):
             t = par.test
+            in_body = cur in par.body if isinstance(par.body, list) else cur is par.body
             neg = False
-            while isinstance(t, ast.UnaryOp) and isinstance(t.op, ast.Not):
-                t, neg = t.operand, not neg
-            if isinstance(t, ast.Call) and isinstance(t.func, ast.Name) and t.func.id == 'isinstance' and len(t.args) == 2 \
-                    and isinstance(t.args[0], ast.Name) and t.args[0].id == var:
-                inside = (cur in par.body) != neg
+            for _ in range(4):
+                while isinstance(t, ast.UnaryOp) and isinstance(t.op, ast.Not):
+                    t, neg = t.operand, not neg
+                if isinstance(t, ast.Name) and loc is not None and t.id not in params(loc.fn):
+                    ds = loc.defs.get(t.id, [])
+                    if len(ds) == 1 and ds[0] is not None:
+                        t = ds[0]           # a condition bound to a local first
+                        continue
+                break
+            inside = in_body != neg
+            conj = t.values if isinstance(t, ast.BoolOp) and isinstance(t.op, ast.And) else [t]
+            disj = t.values if isinstance(t, ast.BoolOp) and isinstance(t.op, ast.Or) else None
+            mentions = any(isinstance(x, ast.Name) and x.id == var for x in ast.walk(t))
+            if disj is not None and mentions:
+                sets = [_isinstance_on(x, var) for x in disj]
+                if any(s_ is None for s_ in sets):
+                    return None
                 if inside:
-                    names = {(attr_chain(x) or '?').split('.')[-1] for x in (t.args[1].elts if isinstance(t.args[1], ast.Tuple) else [t.args[1]])}
-                    if '?' in names:
+                    u: T.Set[str] = set().union(*sets)  # type: ignore[arg-type]
+                    acc = u if acc is None else (acc & u)
+            elif mentions:
+                if not inside and len(conj) > 1:
+                    return None          # the negative branch of a conjunction says nothing simple about the variable
+                for x in conj:
+                    if not any(isinstance(y, ast.Name) and y.id == var for y in ast.walk(x)):
+                        continue
+                    names = _isinstance_on(x, var)
+                    if names is None:
                         return None
-                    acc = names if acc is None else (acc & names)
-                # the negative branch of an isinstance test does not restrict to a named class: handled by the caller through '*'
-            elif any(isinstance(x, ast.Name) and x.id == var for x in ast.walk(t)):
-                return None        # some other condition on the variable
+                    if inside:
+                        acc = names if acc is None else (acc & names)
+            elif isinstance(t, ast.Name):
+                return None              # an opaque flag decides: cannot tell what it says about the variable
         cur = par
     return frozenset(acc) if acc is not None else frozenset({'*'})
 
@@ -2084,7 +2163,7 @@ def _target_classes(fn: FuncNode, tv_loop: ast.For, sinks: T.List[T.Tuple[ast.AS
         role = _role_of(fn, pm, loc, tv, base.id, sink)
         if role is None:
             raise Undecided(f'{qn}: cannot tell which part of the test `{base.id}` comes from at `{short(sink)}`')
-        cls = _classes_accepted(pm, sink, base.id, tv_loop)
+        cls = _classes_accepted(pm, sink, base.id, tv_loop, loc)
         if cls is None:
             raise Undecided(f'{qn}: guard of `{short(sink)}` not understood')
         out.setdefault(role, set()).update(cls)
@@ -2093,7 +2172,7 @@ def _target_classes(fn: FuncNode, tv_loop: ast.For, sinks: T.List[T.Tuple[ast.AS
             if isinstance(d, ast.Assign) and len(d.targets) == 1 and isinstance(d.targets[0], ast.Name) and d.targets[0].id == base.id \
                     and isinstance(d.value, ast.Attribute) and isinstance(d.value.value, ast.Name) and d.value.value.id == base.id \
                     and (d.lineno, d.col_offset) < (getattr(sink, 'lineno', 0), getattr(sink, 'col_offset', 0)):
-                g = _classes_accepted(pm, d, base.id, tv_loop)
+                g = _classes_accepted(pm, d, base.id, tv_loop, loc)
                 if g is None or '*' in g:
                     raise Undecided(f'{qn}: unwrapping `{short(d)}` is not guarded by an isinstance test on `{base.id}`')
                 for k in sorted(g):
@@ -2103,6 +2182,7 @@ def _target_classes(fn: FuncNode, tv_loop: ast.For, sinks: T.List[T.Tuple[ast.AS
 
 def r2e(ctx: RuleCtx) -> None:
     bm, qn, fn = _resolved_method(ctx, 'create_test_serialisation')
+    fn = normal_func(bm, qn, fn=fn)
     p0 = param(fn, 0, qn)
     loc = Locals(fn)
     loops = [l for l in fn.body if isinstance(l, ast.For) and isinstance(l.target, ast.Name) and p0 in {x.id for x in ast.walk(_inline(loc, l.iter)) if isinstance(x, ast.Name)}]
@@ -2141,6 +2221,7 @@ def r2e(ctx: RuleCtx) -> None:
         recorded.setdefault(role, set()).update(cl)
     # the prerequisite statement: get_testlike_targets
     gm, gqn, gfn = _resolved_method(ctx, 'get_testlike_targets')
+    gfn = normal_func(gm, gqn, fn=gfn)
     gloops = [l for l in gfn.body if isinstance(l, ast.For) and isinstance(l.target, ast.Name)]
     if len(gloops) != 1:
         raise Undecided(f'{gqn}: loop over the tests not found')
@@ -2182,6 +2263,7 @@ def r1h(ctx: RuleCtx) -> None:
                     builders.setdefault(call_method(st.value) or '', st.value)
     ctx.floor('per-source object builders called by generate_target', len(builders), 2)
     sig = params(nmod.func('NinjaBackend.create_target_source_introspection'))
+    _flag_agreement(ctx, nmod, gt, builders)
     for name, call in sorted(builders.items()):
         bm, qn, fn = _resolved_method(ctx, name)
         fn = normal_func(bm, qn, fn=fn)
@@ -2213,6 +2295,65 @@ def r1h(ctx: RuleCtx) -> None:
         _ = ps
 
 
+def _generated_flag(ctx: RuleCtx, fn: FuncNode) -> T.Optional[str]:
+    """The parameter of a per-source builder whose truth selects the sources / generated_sources list of its introspection record."""
+    from ..tables import canon
+    pm = parents(fn)
+    ps = set(params(fn))
+    found: T.Set[str] = set()
+    for c in method_calls(fn, 'create_target_source_introspection', nested=False):
+        cur: ast.AST = c
+        while cur in pm:
+            par = pm[cur]
+            if isinstance(par, ast.If) and (cur in par.body or cur in par.orelse):
+                a, _ = canon(par.test, True)
+                cand = [x for x in (a.args if a.kind in ('is', 'truth', 'cmp') else ()) if isinstance(x, str) and x in ps]
+                found.update(cand)
+            cur = par
+        for a_ in c.args:
+            for x in ast.walk(a_):
+                if isinstance(x, ast.IfExp):
+                    found.update(y.id for y in ast.walk(x.test) if isinstance(y, ast.Name) and y.id in ps)
+    return next(iter(found)) if len(found) == 1 else None
+
+
+def _flag_agreement(ctx: RuleCtx, nmod: Module, gt: FuncNode, builders: T.Dict[str, ast.Call]) -> None:
+    """Inside one if/else dispatch of generate_target the alternative builders are told the same thing about `generated`."""
+    pm = parents(gt)
+    n = 0
+    for iff in ast.walk(gt):
+        if not isinstance(iff, ast.If) or not iff.orelse:
+            continue
+        arms: T.List[T.Tuple[str, T.Any]] = []
+        for blk in (iff.body, iff.orelse):
+            calls = [c for st in blk for c in walk_no_nested(st) if isinstance(c, ast.Call) and recv(c) == 'self' and call_method(c) in builders and pm.get(pm.get(c)) is iff]
+            if len(calls) != 1:
+                arms = []
+                break
+            _, _, bfn = _resolved_method(ctx, call_method(calls[0]) or '')
+            flag = _generated_flag(ctx, bfn)
+            if flag is None:
+                arms = []
+                break
+            b = bind_args(calls[0], bfn)
+            v = b.get(flag)
+            if v is None:
+                pos = [a for a in bfn.args.posonlyargs + bfn.args.args if a.arg not in ('self', 'cls')]
+                dflt = dict(zip([a.arg for a in pos][len(pos) - len(bfn.args.defaults):], bfn.args.defaults))
+                dflt.update({a.arg: d for a, d in zip(bfn.args.kwonlyargs, bfn.args.kw_defaults) if d is not None})
+                v = dflt.get(flag)
+            if not isinstance(v, ast.Constant) or not isinstance(v.value, bool):
+                arms = []
+                break
+            arms.append((f'{call_method(calls[0])}({flag}={v.value})', v.value))
+        if len(arms) == 2:
+            n += 1
+            ctx.require(arms[0][1] == arms[1][1], f'generate_target: alternative builders of one source loop agree on the generated flag ({arms[0][0]}, {arms[1][0]})', nmod,
+                        'NinjaBackend.generate_target', f'{arms[0][0]} vs {arms[1][0]}', f'in one source loop of generate_target the alternatives are called as {arms[0][0]} and '
+                        f'{arms[1][0]}: the same kind of source is filed under `sources` by one builder and under `generated_sources` by the other in intro-targets.json', iff)
+    ctx.note(f'builder dispatches compared for the generated flag: {n}')
+
+
 def _enclosing(pm: T.Dict[ast.AST, ast.AST], n: ast.AST) -> T.List[ast.AST]:
     out = []
     while n in pm:
@@ -2234,6 +2375,46 @@ def _records_somewhere(ctx: RuleCtx, meth: str, depth: int = 2) -> bool:
                if isinstance(c, ast.Call) and recv(c) == 'self' and (call_method(c) or '').startswith('generate_'))
 
 
+# ---------------------------------------------------------------------------
+# R2f the placeholder names of a target's install dirs are index-aligned with the install dirs they are zipped with
+
+def r2f(ctx: RuleCtx) -> None:
+    bm, qn, fn = _resolved_method(ctx, 'generate_target_install')
+    fl = Flow(fn, nested=False)
+    zips = [c for c in walk_no_nested(fn) if isinstance(c, ast.Call) and isinstance(c.func, ast.Name) and c.func.id == 'zip']
+    paired = [c for c in zips if any(any(o.endswith('.install_dir_names') and o.startswith('call:') for o in fl.origins(a)) for a in c.args)
+              and any(any(o.endswith('.install_dir') or o.endswith('.get_install_dir') for o in fl.origins(a)) for a in c.args)]
+    if not paired:
+        raise Undecided(f'{qn}: no zip() pairing install dirs with their placeholder names found')
+    ctx.ok(f'{qn}: {len(paired)} zip() site(s) pair install_dir[k] with install_dir_names()[k]')
+    bmod = ctx.repo.module('mesonbuild/build.py')
+    n = 0
+    for q, f in sorted(bmod.funcs().items()):
+        if not q.endswith('.install_dir_names') or q.count('.') != 1:
+            continue
+        n += 1
+        f = normal_func(bmod, q, inline=0)
+        raw = bmod.func(q)
+        comps = [c for c in ast.walk(raw) if isinstance(c, (ast.ListComp, ast.GeneratorExp)) and len(c.generators) == 1 and attr_chain(c.generators[0].iter) == 'self.install_dir']
+        loops = [l for l in ast.walk(raw) if isinstance(l, ast.For) and attr_chain(l.iter) == 'self.install_dir']
+        filtered = [c for c in comps if c.generators[0].ifs]
+        for l in loops:
+            pm = parents(l)
+            for a in method_calls(l, 'append'):
+                cur: ast.AST = a
+                while cur in pm and cur is not l:
+                    cur = pm[cur]
+                    if isinstance(cur, ast.If) and not cur.orelse:
+                        filtered.append(l)  # type: ignore[arg-type]
+        understood = bool(comps or loops) or any(isinstance(x, ast.BinOp) and isinstance(x.op, ast.Mult) and 'self.install_dir' in {attr_chain(y) for y in ast.walk(x)} for x in ast.walk(raw)) \
+            or any(isinstance(x, ast.Subscript) for r in ast.walk(raw) if isinstance(r, ast.Return) and r.value is not None for x in ast.walk(r.value))
+        judge(ctx, understood and not filtered, f'{q}: one placeholder name per entry of self.install_dir (no filter)', bool(filtered), bmod, q,
+              filtered[0] if filtered else raw, f'{q} drops entries while walking self.install_dir, so name k no longer belongs to install dir k: {qn} zips the two lists '
+              'positionally and intro-install_plan.json reports a later output\'s placeholder directory (and loses the last ones)', filtered[0] if filtered else raw)
+        _ = f
+    ctx.floor('install_dir_names implementations', n, 2)
+
+
 RULES = [
     Rule('C15.R1a', 'tests/benchmarks: the pickled serialisation is the introspected one', r1a),
     Rule('C15.R1b', 'install plan/installed/targets: install.dat and the JSON share create_install_data()', r1b),
@@ -2248,6 +2429,7 @@ RULES = [
     Rule('C15.R2c', 'list_installed agrees with the per-kind installers on source and destination fields', r2c),
     Rule('C15.R2d', 'every install producer: install_path and install_path_name are joined from the same per-file components', r2d),
     Rule('C15.R2e', 'every target class recorded as a test dependency is built by the test prerequisite statement', r2e),
+    Rule('C15.R2f', 'install_dir_names() is index-aligned with install_dir (they are zipped positionally)', r2f),
     Rule('C15.R3', 'mintro and backend agree on the target output directory', r3),
     Rule('C15.R5', 'add_build_def_file rules out the build dir before testing the source dir on every recording path', r5),
     Rule('C15.R4', 'introspection generated only after backend.generate, same build/backend', r4),
